@@ -175,6 +175,26 @@ def spec_call(ex, st, e, cx, k):
         vars_, heap_ = st.snaps['old']
         al = heap_.get('alloc', ex.heap_get(st.copy(heap={}), 'alloc', z3.ArraySort(z3.IntSort(), z3.BoolSort())))
         return k(st, SV(BOOL, z3.Not(z3.Select(al, v.z))))
+    if nm == 'fld':
+        # fld('Class.field'): the heap component of that field, as a math array  ref -> value
+        cname, fname = e.args[0].value.split('.')
+        ft = ex.field_type(cname, fname)
+        key = ex.fkey(fname, ft)
+        arr = ex.heap_get(st, key, z3.ArraySort(z3.IntSort(), T.sort_of(ft)))
+        return k(st, SV(T.Ty('arr', ft), arr))
+    if nm == 'lam':
+        # lam(lambda r: expr): the math array  r -> expr
+        lam = e.args[0]
+        kws = kwmap(e)
+        tys = ast.literal_eval(kws['types']) if 'types' in kws else {}
+        nm_ = lam.args.args[0].arg
+        ty = ex.tenv.parse(tys.get(nm_, 'int'))
+        bv = SV(ty, z3.Const(f'{nm_}!lam{ex.counter}', T.sort_of(ty)))
+        ex.counter += 1
+        sub = cx_with_vars(cx, {nm_: bv})
+        vars2 = {a: b for a, b in st.vars.items() if a != nm_}
+        body = ex.pure(st.copy(vars=vars2), lam.body, sub)
+        return k(st, SV(T.Ty('arr', body.ty), z3.Lambda([bv.z], body.z)))
     if nm == 'tb_byte':
         u, n_, little, j = [ex.pure(st, x, cx) for x in e.args]
         tb = ex.uf('tb_byte', z3.IntSort(), z3.IntSort(), z3.BoolSort(), z3.IntSort(), z3.IntSort())
